@@ -33,7 +33,7 @@ pub fn value_of(w: usize, vclass: u8, r: &F, small: u8) -> F {
         }
     };
     let padded = 8 * w.div_ceil(8);
-    match vclass % 12 {
+    match vclass % 14 {
         0 => F::zero(),
         1 => F::one(),
         2 => pw(w) - F::one(),
@@ -44,6 +44,19 @@ pub fn value_of(w: usize, vclass: u8, r: &F, small: u8) -> F {
         // just above the quad padding boundary
         7 => pw(padded) + F::from(small as u64),
         8 => pw(padded) - F::one(),
+        // small multiples of 2^-m: field elements near r/2^m whose DOUBLE (or
+        // quadruple, ...) wraps around the modulus to a small integer
+        12 => {
+            let m = 1 + (small as u32 % 8);
+            let inv = f_pow2(m).invert().unwrap();
+            let sm = F::from(1 + 2 * (f_int(r).0[0] % 64)); // odd numerator
+            sm * inv
+        }
+        13 => {
+            // (r + k) / 2 for a small odd k, shifted by a value below 2^w
+            let half = F::from(2u64).invert().unwrap();
+            half * F::from(1 + 2 * (small as u64 % 4)) + f_of(f_int(r).low_bits(w.min(200) as u32))
+        }
         // random below 2^w
         9 => f_of(f_int(r).low_bits(w.min(255) as u32)),
         // random with one bit above the width set
@@ -62,7 +75,7 @@ pub fn value_of(w: usize, vclass: u8, r: &F, small: u8) -> F {
 fn case_strategy(_t: Tier) -> BoxedStrategy<Case> {
     (
         prop_oneof![3 => 0u16..=256, 1 => 0u16..=16, 1 => 240u16..=256],
-        0u8..12,
+        0u8..14,
         fe_random(),
         any::<u8>(),
         any::<bool>(),
@@ -269,7 +282,7 @@ fn check(ctx: &Ctx, c: &Case) -> PResult {
 fn sweep(ctx: &Ctx) {
     let seed_r = crate::fe::f_stream(ctx.seed, 4);
     for w in 0usize..=256 {
-        for vclass in [0u8, 2, 3, 4, 5, 7, 9, 10] {
+        for vclass in [0u8, 2, 3, 4, 5, 7, 9, 10, 12, 13] {
             let c = Case {
                 w: w as u16,
                 vclass,
@@ -287,7 +300,7 @@ fn sweep(ctx: &Ctx) {
             }
         }
     }
-    ctx.label("sweep: all widths 0..=256 x 8 boundary values");
+    ctx.label("sweep: all widths 0..=256 x 10 boundary values");
     // both entry points and the runtime seam emit identical gates
     for p in 0usize..=160 {
         let bits = (2 * p).min(256);
@@ -326,6 +339,6 @@ pub fn sweeps(ctx: &Ctx) {
 }
 
 pub fn describe(ctx: &Ctx) {
-    ctx.rule("cases: width 0..=256 (every width in the sweep) x value classes {0, 1, 2^w-1, 2^w, 2^w+1, r-1, k*2^w+j, around the 8-bit padding boundary, random below, random with one bit above, random} x entry point {bit-counted, pair-counted}; adversarial accumulator vectors on the unchanged layout {oversized top quad, one quad out of range, digits of v+r / v+2r, digits of another value, non-boolean top bit} and the model-free propagation adversary (input fixed, every other wire re-solved row by row through arithmetic rows and base-4 steps, from the gadget's own table and from an in-range value's table). Oracle: reference row evaluator (cross-checked with the real prover on a sample): honest circuit satisfiable iff v < 2^w (w <= 254) / always (w >= 255); no adversarial vector satisfies when v >= 2^w; entry points emit identical layouts. non-trivial = value >= 2^(w-1) or out of range; distinct by (w, class, value, entry)");
+    ctx.rule("cases: width 0..=256 (every width in the sweep) x value classes {0, 1, 2^w-1, 2^w, 2^w+1, r-1, k*2^w+j, around the 8-bit padding boundary, random below, random with one bit above, random, small odd multiples of 2^-m (m = 1..8), (r+k)/2 plus a small value} x entry point {bit-counted, pair-counted}; adversarial accumulator vectors on the unchanged layout {oversized top quad, one quad out of range, digits of v+r / v+2r, digits of another value, non-boolean top bit} and the model-free propagation adversary (input fixed, every other wire re-solved row by row through arithmetic rows and base-4 steps, from the gadget's own table and from an in-range value's table). Oracle: reference row evaluator (cross-checked with the real prover on a sample): honest circuit satisfiable iff v < 2^w (w <= 254) / always (w >= 255); no adversarial vector satisfies when v >= 2^w; entry points emit identical layouts. non-trivial = value >= 2^(w-1) or out of range; distinct by (w, class, value, entry)");
     ctx.assume("role model of the range gadget's witness allocation is validated against the honest table per case; on mismatch only the honest tier runs");
 }
